@@ -43,6 +43,7 @@ class Doc:
     core: SetNode
     header: list = field(default_factory=list)
     final_newline: bool = True
+    alias: tuple | None = None  # (name, via_call): the core set is bound to `name` by an innermost let and the body is `name` / `f name`
 
 
 def _seg(name, q):
@@ -126,7 +127,16 @@ def render(doc: Doc) -> str:
             out[-1] += w[1] + " "
             open_line = True
     begin()
-    render_set(doc.core, 0, out)
+    if doc.alias:
+        name, via_call = doc.alias
+        out[-1] += "let"
+        out.append("  " + name + " = ")
+        render_set(doc.core, 2, out)
+        out[-1] += ";"
+        out.append("in")
+        out.append(("f " if via_call else "") + name)
+    else:
+        render_set(doc.core, 0, out)
     out[-1] += "".join(")" for w in doc.wrappers if w[0] == "paren")
     return "\n".join(out) + ("\n" if doc.final_newline else "")
 
@@ -136,7 +146,7 @@ def render(doc: Doc) -> str:
 
 class DocGen:
     def __init__(self, seed: int, *, comments=True, wrappers=True, max_lets=3, attrpaths=True, nested=True, quoted=True, inherits=True, refs=False,
-                 nested_families=True, with_ident_env=True, lets_anywhere=True, let_before_call=True, trailing_comments=True, after_in_trivia=True, mixed_roots=True):
+                 nested_families=True, with_ident_env=True, lets_anywhere=True, let_before_call=True, trailing_comments=True, after_in_trivia=True, mixed_roots=True, aliases=True):
         self.r = random.Random(seed)
         self.comments = comments
         self.wrappers = wrappers
@@ -153,6 +163,7 @@ class DocGen:
         self.trailing_comments = trailing_comments
         self.after_in_trivia = after_in_trivia
         self.mixed_roots = mixed_roots
+        self.aliases = aliases
         self.n = 0
         self._depth0 = True
 
@@ -183,7 +194,11 @@ class DocGen:
                 subs = r.sample(["x", "y", "z", "enable", "k"], members)
                 for sname in subs:
                     if r.random() < 0.25:
-                        items.append(Item("bind", (name, sname, r.choice(["p", "q"])), (False, False, False), self.leaf()))
+                        third = r.choice(["p", "q"])
+                        items.append(Item("bind", (name, sname, third), (False, False, False), self.leaf()))
+                        if r.random() < 0.5:
+                            # a second member below the same two-segment prefix (`a.b.p`, `a.b.q`)
+                            items.append(Item("bind", (name, sname, "q" if third == "p" else "p"), (False, False, False), self.leaf()))
                     else:
                         items.append(Item("bind", (name, sname), (False, False), self.leaf()))
                 fam_roots.add(name)
@@ -316,7 +331,17 @@ class DocGen:
         header = []
         if self.comments and r.random() < 0.2:
             header = [self.comment()]
-        return Doc(wrappers, core, header, final_newline=r.random() < 0.85)
+        alias = None
+        if self.aliases and r.random() < 0.1:
+            # the editable set is reached through a name: `let args = { … }; in f args`, possibly shadowing an outer `args`
+            while wrappers and wrappers[-1][0] == "call":
+                wrappers.pop()
+            alias = (r.choice(["args", "attrs", "cfg"]), r.random() < 0.5)
+            if r.random() < 0.35:
+                decoy = SetNode([Item("bind", (alias[0],), (False,), SetNode([Item("bind", ("decoy",), (False,), "1")], inline=True))])
+                positions = [i for i in range(len(wrappers) + 1) if not (i > 0 and wrappers[i - 1][0] == "call")]
+                wrappers.insert(r.choice(positions), ("let", decoy, None, None))
+        return Doc(wrappers, core, header, final_newline=r.random() < 0.85, alias=alias)
 
 
 def make(seed: int, **kw):
